@@ -134,9 +134,67 @@ func runC16(c C16Case) string {
 		if d := model.Diff(sortedDeep(want), sortedDeep(bres.Values[0])); d != "" {
 			return fmt.Sprintf("MarshalBinary output denotes a different value: %s\nbytes: % x", d, clip(bin, 300)) + desc()
 		}
-		// (3) Unmarshal of either into the same type gives an equal value
-		for i, data := range [][]byte{text1, bin} {
-			format := []string{"text", "binary"}[i]
+		// (2b) MarshalBinaryLST with a fixed table holding every text the value needs
+		needed := refbin.CollectSymbols([]model.Value{want})
+		for _, s := range needed {
+			if s == "" {
+				// a fixed table cannot hold the empty text (never indexed by name,
+				// by design): use a text that is there instead of skipping the path
+				needed = nil
+				break
+			}
+		}
+		lst := ion.NewLocalSymbolTable(nil, needed)
+		binLST, err := ion.MarshalBinaryLST(arg, lst)
+		if needed == nil && len(refbin.CollectSymbols([]model.Value{want})) > 0 {
+			// not judged: fall back to the growing-table output for the round trip
+			binLST, err = bin, nil
+		}
+		if err != nil {
+			return fmt.Sprintf("MarshalBinaryLST (fixed table with every needed text) fails: %v", err) + desc()
+		}
+		lres, err := refbin.Decode(binLST, refbin.Options{RequireIVM: true})
+		if err != nil || len(lres.Values) != 1 {
+			return fmt.Sprintf("MarshalBinaryLST output is not one valid Ion value: %v\nbytes: % x", err, clip(binLST, 300)) + desc()
+		}
+		if d := model.Diff(sortedDeep(want), sortedDeep(lres.Values[0])); d != "" {
+			return fmt.Sprintf("MarshalBinaryLST output denotes a different value: %s\nbytes: % x", d, clip(binLST, 300)) + desc()
+		}
+		// (2c) an Encoder writing the value twice produces a stream of two such values
+		var ebuf bytes.Buffer
+		enc := ion.NewTextEncoder(&ebuf)
+		if c.ByPtr {
+			enc = ion.NewBinaryEncoder(&ebuf)
+		}
+		if err := enc.Encode(arg); err != nil {
+			return fmt.Sprintf("Encoder.Encode fails: %v", err) + desc()
+		}
+		if err := enc.Encode(arg); err != nil {
+			return fmt.Sprintf("second Encoder.Encode fails: %v", err) + desc()
+		}
+		if err := enc.Finish(); err != nil {
+			return fmt.Sprintf("Encoder.Finish fails: %v", err) + desc()
+		}
+		var evals []model.Value
+		if c.ByPtr {
+			r, err := refbin.Decode(ebuf.Bytes(), refbin.Options{RequireIVM: true})
+			if err != nil {
+				return fmt.Sprintf("binary Encoder stream is not valid Ion: %v", err) + desc()
+			}
+			evals = r.Values
+		} else {
+			r, err := reftext.Parse(ebuf.Bytes(), reftext.Options{})
+			if err != nil {
+				return fmt.Sprintf("text Encoder stream is not valid Ion: %v\ntext: %q", err, ebuf.Bytes()) + desc()
+			}
+			evals = r.Values
+		}
+		if len(evals) != 2 || model.Diff(sortedDeep(want), sortedDeep(evals[0])) != "" || model.Diff(sortedDeep(want), sortedDeep(evals[1])) != "" {
+			return fmt.Sprintf("an Encoder given the value twice wrote %d values: %s", len(evals), model.SeqString(evals)) + desc()
+		}
+		// (3) Unmarshal of each output into the same type gives an equal value
+		for i, data := range [][]byte{text1, bin, binLST} {
+			format := []string{"text", "binary", "binaryLST"}[i]
 			back := reflect.New(typ)
 			if err := ion.Unmarshal(data, back.Interface()); err != nil {
 				return fmt.Sprintf("Unmarshal of the %s output into the same type fails: %v\ntext: %q", format, err, text1) + desc()
